@@ -120,7 +120,7 @@ func NewCheck(t *testing.T, id, level string) *Check {
 }
 
 func (c *Check) loadKnown() {
-	f, err := os.Open(filepath.Join(VerifDir(), "KNOWN_FINDINGS.jsonl"))
+	f, err := os.Open(filepath.Join(VerifDir(), "KNOWN_FINDINGS.txt"))
 	if err != nil {
 		return
 	}
@@ -129,15 +129,31 @@ func (c *Check) loadKnown() {
 	sc.Buffer(make([]byte, 1<<20), 1<<20)
 	for sc.Scan() {
 		line := strings.TrimSpace(sc.Text())
-		if line == "" || strings.HasPrefix(line, "#") {
-			continue
+		if !strings.HasPrefix(line, "known:") {
+			continue // comments and "fixed:" lines suppress nothing
 		}
 		var e knownEntry
-		if json.Unmarshal([]byte(line), &e) != nil || e.Property != c.ID || e.Status != "known" {
+		rest := strings.TrimSpace(strings.TrimPrefix(line, "known:"))
+		if i := strings.Index(rest, " what="); i >= 0 {
+			e.What = rest[i+6:]
+			rest = rest[:i]
+		}
+		for _, f := range strings.Fields(rest) {
+			switch {
+			case strings.HasPrefix(f, "property="):
+				e.Property = f[9:]
+			case strings.HasPrefix(f, "id="):
+				e.ID = f[3:]
+			case strings.HasPrefix(f, "match="):
+				e.Match = f[6:]
+			}
+		}
+		if e.Property != c.ID || e.Match == "" || e.ID == "" {
 			continue
 		}
 		re, err := regexp.Compile("^(?:" + e.Match + ")$")
 		if err != nil {
+			fmt.Printf("KNOWN_FINDINGS.txt: bad regexp in %s: %v\n", e.ID, err)
 			continue
 		}
 		e.re = re
@@ -752,4 +768,15 @@ func Dump(v any) string {
 		s = s[:8000] + "…"
 	}
 	return s
+}
+
+// ReadJSON reads a JSON file into v (panics on error; used for replays).
+func ReadJSON(path string, v any) {
+	b, err := os.ReadFile(path)
+	if err != nil {
+		panic(err)
+	}
+	if err := json.Unmarshal(b, v); err != nil {
+		panic(err)
+	}
 }
